@@ -14,13 +14,13 @@ enum RK { RK_NONE, RK_VAL, RK_LRVAL, RK_THROW_STD, RK_THROW_INT, RK_REF_PARAM, R
           RK_STR_PARAM, RK_LRSTR_VAR, RK_PAIR, RK_LRPAIR_VAR };
 
 // function indices of MockT
-enum FN { FN_F1 = 0, FN_F2 = 1, FN_G = 2, FN_R = 3, FN_C = 4, FN_U = 5, FN_S = 6, FN_K = 7, FN_Z = 8, FN_V = 9, FN_P = 10, NFN = 11 };
+enum FN { FN_F1 = 0, FN_F2 = 1, FN_G = 2, FN_R = 3, FN_C = 4, FN_U = 5, FN_S = 6, FN_K = 7, FN_Z = 8, FN_V = 9, FN_P = 10, FN_CF = 11, NFN = 12 };
 
 struct FnDesc { const char* name; int arity; char ret; /* i v r s k p(air) */ char argk; /* i r u s c n(one) v(ector) */ };
 inline const FnDesc& fn_desc(int fn) {
   static const FnDesc t[NFN] = {  // (declaration order in MockT: destruction runs backwards)
     {"f", 1, 'i', 'i'}, {"f", 2, 'i', 'i'}, {"g", 1, 'v', 'i'}, {"r", 1, 'r', 'r'},
-    {"c", 1, 'i', 'i'}, {"u", 1, 'i', 'u'}, {"s", 1, 's', 's'}, {"k", 1, 'k', 'c'}, {"z", 0, 'v', 'n'}, {"v", 1, 'v', 'v'}, {"p", 1, 'p', 'i'}};
+    {"c", 1, 'i', 'i'}, {"u", 1, 'i', 'u'}, {"s", 1, 's', 's'}, {"k", 1, 'k', 'c'}, {"z", 0, 'v', 'n'}, {"v", 1, 'v', 'v'}, {"p", 1, 'p', 'i'}, {"f", 1, 'i', 'i'}};   // the last one: int f(int) const, the const twin of FN_F1
   return t[fn];
 }
 
